@@ -29,6 +29,10 @@ func init() {
 			keys := []string{":count", "request-bytes", "panic"}
 			b = append(b, same(n(tier, 1, 3), Batch{Mode: "loopback", RunAs: "C06", Keys: keys, Timeout: 30 * time.Minute, Procs: 8})...)
 			b = append(b, same(n(tier, 1, 2), Batch{Mode: "netns", RunAs: "C06", Keys: keys, Netns: true, Timeout: 30 * time.Minute, Procs: 4})...)
+			// dates are calendar days whatever the process zone does around them: the date-bearing operations in zones with skipped midnights
+			for _, z := range []string{"America/Havana", "America/Santiago", "America/Asuncion", "America/Sao_Paulo", "Asia/Beirut", "Atlantic/Azores", "Africa/Cairo", "Australia/Lord_Howe"}[:n(tier, 4, 8)] {
+				b = append(b, Batch{Mode: "tz", Env: []string{"TZ=" + z}, Timeout: 20 * time.Minute, Procs: 1})
+			}
 			// "never of earlier calls on the same or another client": an earlier call that failed to open its socket must not keep later
 			// calls from sending their request (port-queue phase of C09's workload)
 			return append(b, Batch{Mode: "port-queue", RunAs: "C09", Keys: []string{"hang", "failed-without-asking", "panic"}, Timeout: 20 * time.Minute, Procs: 8})
